@@ -195,6 +195,8 @@ def mk_fun1(spec):
     kind, *cs = spec.split(':')
     c = [F(v) for v in cs]
     if kind == 'p':
+        if c == [0, 1]:
+            return lambda x: x   # the identity as a user writes it: returns the routine's own node array
 
         def f(x):
             acc = 0 * x
@@ -215,6 +217,8 @@ def mk_fun3(spec):
         for t in cs:
             cc, i, j, k = t.split(',')
             terms.append((F(cc), int(i), int(j), int(k)))
+        if terms == [(F(1), 1, 0, 0)]:
+            return lambda x, gamma: x   # returns the routine's own node array
 
         def f(x, gamma):
             g = gamma(x)
@@ -238,12 +242,16 @@ def rand_q(rng, lo=-9, hi=9):
 
 
 def rand_fun1(rng):
+    if rng.random() < 0.2:
+        return 'p:0:1'
     if rng.random() < 0.7:
         return 'p:' + ':'.join(q2s(rand_q(rng)) for _ in range(rng.randint(1, 6)))
     return 'r:%s:%s:0:0' % (q2s(F(rng.randint(1, 9), rng.choice([1, 2, 3]))), q2s(F(rng.randint(1, 7), rng.choice([1, 3, 5]))))
 
 
 def rand_fun3(rng):
+    if rng.random() < 0.2:
+        return 's:1,1,0,0'
     if rng.random() < 0.75:
         terms = []
         for _ in range(rng.randint(1, 5)):
@@ -337,11 +345,13 @@ def correspond(res, tier):
             S = Slobodeckij(N14, N12) if two_orders else Slobodeckij(N14)
         res.bump('constructed_' + ('two_orders' if two_orders else 'one_order'))
 
+        # the instance S serves a *history* of calls: intervals repeat within a case (any state the routines keep
+        # between calls would show up as a difference from the stateless model)
+        pool = [(rand_q(rng, 0, 9), rng.choice(SQUARES)) for _ in range(2)]
         # --- H^{1/4}
-        for _ in range(3):
+        for _ in range(4):
             fs = rand_fun1(rng)
-            h = rng.choice(SQUARES)
-            a = rand_q(rng, 0, 9) if fs[0] == 'r' else rand_q(rng)
+            a, h = rng.choice(pool)
             root = Q(h)**0.5
             try:
                 v = S.seminorm_h_1_4(mk_fun1(fs), Q(a), Q(a + h))
@@ -350,10 +360,10 @@ def correspond(res, tier):
                 continue
             add('slo h14 %s %s %s %s' % (e14, fs, q2s(a), q2s(h)), q2s(v / root), ('h14', e14, fs, a, h), nt14)
         # --- H^{1/2}, flat
-        for _ in range(3):
+        pool = [(rand_q(rng, 0, 9), rng.choice(SQUARES + [F(2), F(3, 7), F(1000, 3)])) for _ in range(2)]
+        for _ in range(4):
             fs = rand_fun1(rng)
-            h = rng.choice(SQUARES + [F(2), F(3, 7), F(1000, 3)])
-            a = rand_q(rng, 0, 9) if fs[0] == 'r' else rand_q(rng)
+            a, h = rng.choice(pool)
             try:
                 v = S.seminorm_h_1_2(mk_fun1(fs), Q(a), Q(a + h))
             except ZeroDivisionError:
@@ -361,12 +371,16 @@ def correspond(res, tier):
                 continue
             add('slo h12 %s %s %s %s %s' % (ex, el, fs, q2s(a), q2s(h)), q2s(v), ('h12', ex, el, fs, a, h), nt12)
         # --- H^{1/2}, curve-aware on a straight piece
-        for _ in range(3):
+        d = rng.choice(UNIT_DIRS + OTHER_DIRS)
+        sg_pool = [SegGamma(rand_q(rng, 0, 9), rand_q(rng, 0, 9), d[0], d[1], rand_q(rng), wrap=Q)]
+        pool = [(rand_q(rng, 0, 9), rng.choice([F(1), F(1, 3), F(5, 2), F(1, 50), F(40)])) for _ in range(2)]
+        for _ in range(4):
             fs = rand_fun3(rng)
-            h = rng.choice([F(1), F(1, 3), F(5, 2), F(1, 50), F(40)])
-            a = rand_q(rng, 0, 9)
-            d = rng.choice(UNIT_DIRS + OTHER_DIRS)
-            sg = SegGamma(rand_q(rng, 0, 9), rand_q(rng, 0, 9), d[0], d[1], rand_q(rng), wrap=Q)
+            a, h = rng.choice(pool)
+            if rng.random() < 0.3:
+                d = rng.choice(UNIT_DIRS + OTHER_DIRS)
+                sg_pool.append(SegGamma(rand_q(rng, 0, 9), rand_q(rng, 0, 9), d[0], d[1], rand_q(rng), wrap=Q))
+            sg = rng.choice(sg_pool)
             try:
                 v = S.seminorm_h_1_2(mk_fun3(fs), Q(a), Q(a + h), sg)
             except ZeroDivisionError:
@@ -588,6 +602,35 @@ def search_exact(res, tier, boost, rng):
                 if got_g != got:
                     fail('C14:curve-aware-ne-flat-exact:N=%d' % N, curve=q2s(got_g), flat=q2s(got), seg=sg.enc(), **info)
 
+        # call histories on the ONE instance: repeated intervals, integrands that hand back the array they were
+        # given (`lambda x: x`): the value of a call must not depend on the calls before it
+        if dmax >= 1:
+            ivs = [(rand_q(rng), rng.choice(SQUARES)) for _ in range(2)]
+            sgs = [SegGamma(rand_q(rng), rand_q(rng), d[0], d[1], rand_q(rng), wrap=Q) for d in UNIT_DIRS[:2]]
+            hist = []
+            for step in range(6 * reps):
+                a, h = rng.choice(ivs)
+                kind = rng.choice(['h14', 'h12', 'h12g'])
+                alias = rng.random() < 0.4
+                c = [F(0), F(1)] if alias else [rand_q(rng), F(rng.choice([-3, -1, 1, 2, 5]), rng.choice([1, 2, 3]))]
+                f1 = (lambda x: x) if alias else poly_fun(c)
+                hist.append(dict(kind=kind, a=q2s(a), h=q2s(h), f='lambda x: x' if alias else [q2s(v) for v in c]))
+                if kind == 'h14':
+                    got, want = S.seminorm_h_1_4(f1, Q(a), Q(a + h)).v / (Q(h)**0.5).v, ref14_over_sqrt_h(c, a, h)
+                elif kind == 'h12':
+                    got, want = S.seminorm_h_1_2(f1, Q(a), Q(a + h)).v, ref12(c, a, a + h)
+                else:
+                    sg = rng.choice(sgs)
+                    hist[-1]['seg'] = sg.enc()
+                    f3 = (lambda x, gamma: x) if alias else (lambda x, gamma: f1(x))
+                    got, want = S.seminorm_h_1_2(f3, Q(a), Q(a + h), sg).v, ref12(c, a, a + h)
+                res.count(('xhist', N, step, kind, tuple(c), a, h), True)
+                if got != want:
+                    fail('C14:call-history:%s-closed-form-exact-rule:N=%d' % (kind, N), got=q2s(got), want=q2s(want),
+                         history_on_one_instance=hist[-8:], N=N, rule_sqrtinv=enc_rule1(*g14), rule_x=enc_rule1(*gx),
+                         rule_leg=enc_rule1(*gl))
+                    break
+
     # invariances hold for every rule with non-negative weights and nodes in (0,1): random stand-in rules,
     # arbitrary (non-polynomial) data
     for _ in range(8 if tier == 'quick' and not boost else 150):
@@ -737,6 +780,48 @@ def search_float(res, tier, boost, rng):
                 if not within('curve_embedded_' + kind, abs(v_curve - v_fl), 1e-12 * abs(v_fl) + 64 * EPS * (R + A) * hh * LG * LG):
                     fail('C14:curve-aware-ne-flat:%s-embedded:order=%d' % (kind, N), curve=v_curve, flat=v_fl,
                          seg=list(sg.raw), G=gco, **info)
+
+    # call histories on one instance (the way the estimators use it): repeated intervals, integrands that return
+    # their argument array; every call is compared with the closed form
+    for N, S in objs.items():
+        if N < 3:
+            continue
+        ivs = []
+        for _ in range(2):
+            h = 10**rng.uniform(-2, 2)
+            ivs.append((rng.uniform(-2, 2) * h, h))
+        sgs = [SegGamma(0.3, -0.2, 0.0, 1.0, 0.1), SegGamma(1.0, 2.0, 0.6, 0.8, -0.5)]
+        hist = []
+        for step in range(8 if tier == 'quick' and not boost else 60):
+            a, h = rng.choice(ivs)
+            b = a + h
+            kind = rng.choice(['h14', 'h12', 'h12g']) if N <= 21 else 'h14'
+            alias = rng.random() < 0.4
+            c = [0.0, 1.0] if alias else [rng.uniform(-1, 1), rng.uniform(0.5, 1)]
+            f1 = (lambda x: x) if alias else poly_fun(c)
+            hist.append(dict(kind=kind, a=a, b=b, f='lambda x: x' if alias else c))
+            cf, af, bf = [F(v) for v in c], F(a), F(b)
+            A = max(abs(a), abs(b))
+            if kind == 'h14':
+                got = float(S.seminorm_h_1_4(f1, a, b))
+                want = float(ref14_over_sqrt_h(cf, af, bf - af)) * math.sqrt(float(bf - af))
+                kap = cond_allowance(c, A, A, b - a, 1.5)
+            else:
+                want = float(ref12(cf, af, bf))
+                kap = cond_allowance(c, A, A, b - a, 1.0)
+                if kind == 'h12':
+                    got = float(S.seminorm_h_1_2(f1, a, b))
+                else:
+                    sg = rng.choice(sgs)
+                    hist[-1]['seg'] = list(sg.raw)
+                    f3 = (lambda x, gamma: x) if alias else (lambda x, gamma: f1(x))
+                    got = float(S.seminorm_h_1_2(f3, a, b, sg))
+                    kap += 64 * EPS * (3 + A) * (b - a) * 4
+            res.count(('f-hist', N, step, kind, tuple(c), a, b), True)
+            if not within('call_history_' + kind, abs(got - want), 1e-12 * abs(want) + kap):
+                fail('C14:call-history:%s-closed-form:order=%d' % (kind, N), got=got, want=want, order=N,
+                     history_on_one_instance=hist[-8:])
+                break
 
     # corner: two straight unit-speed pieces, polynomial data in the embedded coordinates, highest order
     if 21 in objs:
